@@ -128,6 +128,29 @@ func Core() []*Schema {
 		Msg("Tree", MF(1, "v", P("int64")), MF(2, "kids", A(N("Tree"))), MF(3, "named", M("string", N("Tree")))),
 		St("Forest", F("l", N("List")), F("t", N("Tree")), F("n", P("byte")))))
 
+	// 8a. nested arrays / maps of records inside structs
+	out = append(out, mk("deeprecords",
+		St("Cell", F("id", P("uint16")), F("lbl", P("string"))),
+		Msg("CellMsg", MF(1, "id", P("uint16")), MF(2, "lbl", P("string"))),
+		Un("CellU", Br(1, St("CellA", F("a", P("byte")))), Br(2, Msg("CellB", MF(1, "b", P("string"))))),
+		St("Grid", F("rows", A(A(N("Cell")))), F("mrows", A(A(N("CellMsg")))), F("urows", A(A(N("CellU")))), F("tail", P("uint32"))),
+		St("GridMaps", F("byrow", M("string", A(N("Cell")))), F("rowsof", A(M("uint8", N("CellMsg")))), F("deep", M("int32", M("string", N("Cell")))), F("tail", P("byte")))))
+
+	// 8f. a large program: 40 records each with two map fields (thresholds on the number
+	// of definitions, file-wide counters in the generator)
+	{
+		var defs []*Def
+		for i := 0; i < 40; i++ {
+			name := fmt.Sprintf("Big%02d", i)
+			if i%2 == 0 {
+				defs = append(defs, St(name, F("m", M("string", P("int32"))), F("n", M("uint16", P("string"))), F("z", P("byte"))))
+			} else {
+				defs = append(defs, Msg(name, MF(1, "m", M("string", P("int32"))), MF(2, "n", M("uint16", P("string"))), MF(3, "z", P("byte"))))
+			}
+		}
+		out = append(out, mk("bigprogram", defs...))
+	}
+
 	// 8b. wide records: fixed-size structs of 256 bytes and more (8-bit size arithmetic in a
 	// generator or decoder wraps there), alone, nested with followers, in arrays, maps,
 	// messages and unions
